@@ -250,7 +250,7 @@ Section ReaderContract.
         by (intros; apply IH; assumption).
       rewrite rp_S. cbn [brskip]. rewrite (tts_ok SBufferReader t Ht). unfold sret at 1. cbn [sbind].
       rewrite fixed_width_pos.
-      destruct (is_ty_ok t Ht) as (Hs&Hm&Hl&_&Hst&_). rewrite Hs, Hm, Hl, Hst.
+      destruct (is_ty_ok t Ht) as (Hs&Hm&Hl&_&Hst&_). rewrite Hs, Hm, Hl, Hst. clear Hs Hm Hl Hst.
       unfold lvl, is_fixed, is_str, is_map, is_list, is_struct, fixed_width.
       destruct (kind_of t) eqn:K; cbv beta iota.
       - apply br_skipn_exact; exact HR.
